@@ -74,6 +74,17 @@ def _call_later(_delay, fun, *args, **kwds):
 twisted.internet.reactor.callLater = _call_later
 
 
+
+def _reason(k):
+    """what twisted hands to connectionLost: a Failure wrapping ConnectionDone (clean close, e.g. the peer process
+    died) or ConnectionLost (unclean), alternating deterministically over steps and clients"""
+    import twisted.internet.error
+    import twisted.python.failure
+
+    exc = twisted.internet.error.ConnectionDone() if k % 2 == 0 else twisted.internet.error.ConnectionLost()
+    return twisted.python.failure.Failure(exc)
+
+
 class _Engine:  # DBI().task_engine without opening shelve files
     @staticmethod
     def install():
@@ -256,7 +267,7 @@ class World:
     def _lost(self, c):
         c.alive = False
         try:
-            c.proto.connectionLost(None)
+            c.proto.connectionLost(_reason(self.step_no + sum(map(ord, c.name))))
         except Exception as exc:  # pylint: disable=broad-except
             self.errors.append((self.step_no, c.name, 'lost', repr(exc)))
 
@@ -615,7 +626,7 @@ class FakeSocket:
             self.closed = True
             if self.conn.alive:
                 self.conn.alive = False
-                self.conn.proto.connectionLost(None)
+                self.conn.proto.connectionLost(_reason(0))
 
 
 class Scene:
@@ -671,7 +682,7 @@ class Scene:
         elif step == 'discA':
             if a.alive:
                 a.alive = False
-                a.proto.connectionLost(None)
+                a.proto.connectionLost(_reason(1))
             self.a_done = True
         elif step == 'timerA':
             a.fire_timers()
